@@ -543,7 +543,7 @@ func (m *Message) encodeFirstLine(writer io.Writer) (int, error) {
 func (m *Message) encodeHeader(writer io.Writer) (int, error) {
 	n := 0
 	for _, header := range m.headers {
-		if header.name == "Content-Length" {
+		if m.isSameHeader(header.name, "Content-Length") {
 			continue
 		}
 		k, err := fmt.Fprintf(writer, "%s: %v\r\n", header.name, header.value)
